@@ -6,7 +6,7 @@
 use super::verif_m_wf::*;
 use super::*;
 
-// @ob props=C01,C02,C03,C04,C07 tier=quick kind=Kinf fns=BytesMut::split_off,BytesMut::shallow_clone,BytesMut::promote_to_shared,BytesMut::advance_unchecked,rebuild_vec
+// @ob props=C01,C02,C03,C04,C07,C18 tier=quick kind=Kinf fns=BytesMut::split_off,BytesMut::shallow_clone,BytesMut::promote_to_shared,BytesMut::advance_unchecked,rebuild_vec
 #[kani::proof]
 fn kx_mvec_split_off() {
     let (mut b, g) = any_mvec();
@@ -38,7 +38,7 @@ fn kx_mvec_split_off() {
     drop(o);
 }
 
-// @ob props=C01,C02,C03,C04,C07 tier=quick kind=Kinf fns=BytesMut::split_off,BytesMut::shallow_clone,increment_shared,BytesMut::advance_unchecked
+// @ob props=C01,C02,C03,C04,C07,C18 tier=quick kind=Kinf fns=BytesMut::split_off,BytesMut::shallow_clone,increment_shared,BytesMut::advance_unchecked
 #[kani::proof]
 fn kx_marc_split_off() {
     let (mut b, g) = any_marc();
@@ -59,7 +59,7 @@ fn kx_marc_split_off() {
     core::mem::forget(o);
 }
 
-// @ob props=C01,C02,C03,C04,C07 tier=quick kind=Kinf fns=BytesMut::split_to,BytesMut::split,BytesMut::shallow_clone,BytesMut::promote_to_shared,BytesMut::advance_unchecked
+// @ob props=C01,C02,C03,C04,C07,C18 tier=quick kind=Kinf fns=BytesMut::split_to,BytesMut::split,BytesMut::shallow_clone,BytesMut::promote_to_shared,BytesMut::advance_unchecked
 #[kani::proof]
 fn kx_mvec_split_to() {
     let (mut b, g) = any_mvec();
@@ -84,7 +84,7 @@ fn kx_mvec_split_to() {
     drop(b);
 }
 
-// @ob props=C01,C02,C03,C04,C07 tier=quick kind=Kinf fns=BytesMut::split_to,BytesMut::split,increment_shared,BytesMut::advance_unchecked
+// @ob props=C01,C02,C03,C04,C07,C18 tier=quick kind=Kinf fns=BytesMut::split_to,BytesMut::split,increment_shared,BytesMut::advance_unchecked
 #[kani::proof]
 fn kx_marc_split_to() {
     let (mut b, g) = any_marc();
@@ -104,7 +104,7 @@ fn kx_marc_split_to() {
     core::mem::forget(o);
 }
 
-// @ob props=C01,C02,C04,C07,C09 tier=quick kind=Kinf fns=BytesMut::advance,BytesMut::advance_unchecked,BytesMut::set_vec_pos,BytesMut::get_vec_pos
+// @ob props=C01,C02,C04,C07,C09,C18 tier=quick kind=Kinf fns=BytesMut::advance,BytesMut::advance_unchecked,BytesMut::set_vec_pos,BytesMut::get_vec_pos
 #[kani::proof]
 fn kx_mvec_advance() {
     let (mut b, g) = any_mvec();
@@ -120,7 +120,7 @@ fn kx_mvec_advance() {
     drop(b);
 }
 
-// @ob props=C01,C02,C04,C07,C09 tier=quick kind=Kinf fns=BytesMut::advance,BytesMut::advance_unchecked
+// @ob props=C01,C02,C04,C07,C09,C18 tier=quick kind=Kinf fns=BytesMut::advance,BytesMut::advance_unchecked
 #[kani::proof]
 fn kx_marc_advance() {
     let (mut b, g) = any_marc();
@@ -245,7 +245,7 @@ fn kx_marc_freeze_then_clone() {
     core::mem::forget(f);
 }
 
-// @ob props=C03,C02,C01 tier=quick kind=Kinf leak=1 fns=BytesMut::drop,release_shared,rebuild_vec
+// @ob props=C03,C02,C01,C18 tier=quick kind=Kinf leak=1 fns=BytesMut::drop,release_shared,rebuild_vec
 #[kani::proof]
 fn kx_m_drop_last() {
     // last handle in either form: everything built here must be gone afterwards
@@ -256,7 +256,7 @@ fn kx_m_drop_last() {
     drop(b);
 }
 
-// @ob props=C03,C02,C01 tier=quick kind=Kinf fns=BytesMut::drop,release_shared
+// @ob props=C03,C02,C01,C18 tier=quick kind=Kinf fns=BytesMut::drop,release_shared
 #[kani::proof]
 fn kx_marc_drop_not_last() {
     let (b, g) = any_marc();
